@@ -167,6 +167,52 @@ func c19ConfigCopies(st *Stats) string {
 			}
 		}
 	}
+	// a base that holds functions of ONE kind only: copies registering a function of the OTHER kind
+	// under the same name each keep their own (the base never had a table of that kind to share)
+	for n := 1; n <= 3; n++ {
+		var base jsonpath.Config
+		for i := 0; i < n; i++ {
+			base.SetFilterFunction("b"+strconv.Itoa(i), c19Tagger("base"))
+		}
+		head, tail := base, base
+		head.SetAggregateFunction("same", func(vs []interface{}) (interface{}, error) { return "HEAD", nil })
+		tail.SetAggregateFunction("same", func(vs []interface{}) (interface{}, error) { return "TAIL", nil })
+		for _, p := range []struct {
+			cfg  jsonpath.Config
+			who  string
+			want string
+		}{{head, "the first copy", `["HEAD"]`}, {tail, "the second copy", `["TAIL"]`}} {
+			got, err := jsonpath.Retrieve("$.a.same()", doc, p.cfg)
+			st.Eval(1)
+			if err != nil || JSONString(got) != p.want {
+				return fmt.Sprintf("two copies of a Config holding %d filter functions each register an aggregate function 'same': $.a.same() with %s returns (%s, %v), expected %s", n, p.who, JSONString(got), err, p.want)
+			}
+		}
+		if _, err := jsonpath.Parse("$.a.same()", base); err == nil || DescribeErr(err).Type != "ErrorFunctionNotFound" {
+			return fmt.Sprintf("a Config holding %d filter functions: an aggregate function registered on copies of it is found through the original (%v)", n, err)
+		}
+	}
+	// Configs kept in one slice: a call given the first k of them leaves the others alone
+	{
+		var a, b jsonpath.Config
+		a.SetFilterFunction("fa", c19Tagger("A"))
+		b.SetFilterFunction("fb", c19Tagger("B"))
+		b.SetAccessorMode()
+		all := []jsonpath.Config{a, b}
+		_, _ = jsonpath.Parse("$.a", all[:1]...)
+		_, _ = jsonpath.Retrieve("$.a", doc, all[:0]...)
+		got, err := jsonpath.Retrieve("$.a.fb()", doc, all[1])
+		st.Eval(3)
+		if err != nil || len(got) != 1 {
+			return fmt.Sprintf("Configs kept in one slice: after Parse(path, all[:1]...) the call with all[1] returns (%s, %v)", JSONString(got), err)
+		}
+		if acc, ok := got[0].(jsonpath.Accessor); !ok || JSONString(acc.Get()) != `["B",1]` {
+			return fmt.Sprintf("Configs kept in one slice: after Parse(path, all[:1]...) the call with all[1] (accessor mode, function fb) returns %s", JSONString(got))
+		}
+		if got0, err0 := jsonpath.Retrieve("$.a.fa()", doc, all[0]); err0 != nil || JSONString(got0) != `[["A",1]]` {
+			return fmt.Sprintf("Configs kept in one slice: after Retrieve(path, doc, all[:0]...) the call with all[0] returns (%s, %v)", JSONString(got0), err0)
+		}
+	}
 	st.Class("config-copies-independent")
 	return ""
 }
